@@ -36,7 +36,7 @@ type Profile struct {
 	NoRedundantPar                                                                                 bool
 	PoryKeys                                                                                       []string
 	TextPool                                                                                       []string
-	NoEmptyArgs, SingleTokenOperands, MultiTokenCases                                              bool
+	ASCIINames, NoEmptyArgs, SingleTokenOperands, MultiTokenCases                                  bool
 	PFallback                                                                                      float64 // probability that a poryswitch has a `_` case (default 0.5)
 	WCondGoto                                                                                      int     // weight of user-written goto_if_set/goto_if_unset commands (targets: labels of the same script)
 	PRepeatAuto                                                                                    float64 // probability that an AutoVar leaf repeats the previous AutoVar command verbatim
@@ -92,6 +92,11 @@ var suffixLetters = "abcdefghjkmnpqrstuvwxyz"
 // `_<digits>` (so it cannot imitate a generated sub-label).
 func (g *Gen) Name(prefix string) string {
 	g.n++
+	if !g.P.ASCIINames && g.R.IntN(12) == 0 {
+		// identifiers may contain any Unicode letter: scripts, labels, texts, movements, marts, map
+		// scripts, commands, flags and vars alike
+		return fmt.Sprintf("%s%s%d%c", prefix, []string{"É", "ポ", "ß", "Ж"}[g.R.IntN(4)], g.n, suffixLetters[g.R.IntN(len(suffixLetters))])
+	}
 	return fmt.Sprintf("%s%d%c", prefix, g.n, suffixLetters[g.R.IntN(len(suffixLetters))])
 }
 
@@ -135,7 +140,7 @@ func (g *Gen) Cands() []int {
 // Commands and arguments
 
 var plainArgPool = []string{"VAR_RESULT", "ITEM_POTION", "1", "0x4000", "0x1f", "0xabc", "-3", "MSGBOX_YESNO", "OBJ_EVENT_ID_PLAYER", "0", "42", "Ünï", "ポケ", "FLAG_TEMP_1"}
-var oddTokPool = []string{"+", "-", "*", "==", "<", ">=", "!", "&&", "||", "if", "while", "global", "local", "true", "var", "flag", "default", "case", "[", "]", "=", "script", "text", "value", "@", "%", "0x1F", "007"}
+var oddTokPool = []string{"+", "-", "*", "==", "<", ">=", "!", "&&", "||", "if", "while", "global", "local", "true", "var", "flag", "default", "case", "[", "]", "=", "script", "text", "value", "@", "%", "0x1F", "007", "?", ":", "{", "}", "~", ".", ";", "$", "/", "TRUE", "false"}
 
 func (g *Gen) plainArg() *Arg {
 	if !g.P.RichArgs {
@@ -273,9 +278,55 @@ func (g *Gen) AutoCmd() (*Cmd, string) {
 		c := &Cmd{ID: g.Prog.NewID(), Name: g.lastAuto.Name, Args: g.lastAuto.Args, EmptyParens: g.lastAuto.EmptyParens}
 		return c, g.lastAutoVar
 	}
+	if g.lastAuto != nil && g.chance(g.P.PRepeatAuto/2) {
+		// the same configured command invoked again with other arguments
+		if c, v, ok := g.autoCmdReuse(); ok {
+			g.lastAuto, g.lastAutoVar = c, v
+			return c, v
+		}
+	}
 	c, v := g.autoCmdFresh()
 	g.lastAuto, g.lastAutoVar = c, v
 	return c, v
+}
+
+// autoCmdReuse invokes the previous AutoVar command's name with fresh
+// arguments, respecting its configuration.
+func (g *Gen) autoCmdReuse() (*Cmd, string, bool) {
+	av, ok := g.Prog.AutoVars[g.lastAuto.Name]
+	if !ok {
+		return nil, "", false
+	}
+	c := g.Cmd()
+	c.Name = g.lastAuto.Name
+	if av.ArgPos < 0 {
+		return c, av.VarName, true
+	}
+	for _, a := range c.Args {
+		for _, t := range a.Toks {
+			if t == "," {
+				return nil, "", false
+			}
+		}
+	}
+	for len(c.Args) <= av.ArgPos {
+		c.Args = append(c.Args, g.plainArg())
+	}
+	// no trailing empty argument (it would not count as an argument)
+	if n := len(c.Args); c.Args[n-1].Text == nil && c.Args[n-1].Moves == nil && len(c.Args[n-1].Toks) == 0 {
+		c.Args[n-1] = &Arg{Toks: []string{"7"}}
+	}
+	for _, a := range c.Args {
+		for _, t := range a.Toks {
+			if t == "," {
+				return nil, "", false
+			}
+		}
+	}
+	v := g.Name("VAR_P")
+	c.Args[av.ArgPos] = &Arg{Toks: []string{v}}
+	c.EmptyParens = false
+	return c, v, true
 }
 
 func (g *Gen) autoCmdFresh() (*Cmd, string) {
@@ -315,7 +366,7 @@ func (g *Gen) autoCmdFresh() (*Cmd, string) {
 
 var boolLits = []string{"true", "TRUE", "false", "FALSE"}
 var cmpOps = []string{"==", "!=", "<", "<=", ">", ">="}
-var valuePool = [][]string{{"0"}, {"1"}, {"2"}, {"5"}, {"0x10"}, {"-1"}, {"TIME_NIGHT"}, {"VAR_BASE", "+", "1"}, {"ITEM_COUNT"}, {"100"}}
+var valuePool = [][]string{{"0"}, {"1"}, {"2"}, {"5"}, {"0x10"}, {"-1"}, {"TIME_NIGHT"}, {"VAR_BASE", "+", "1"}, {"ITEM_COUNT"}, {"100"}, {"TRUE"}, {"false"}}
 
 // rawValuePool: values only value( ... ) can hold (nested parentheses).
 var rawValuePool = [][]string{{"(", "1", "+", "2", ")", "*", "2"}, {"MAC_VAL", "(", "3", ")"}, {"(", "ITEM_A", ")"}, {"A_FLAGS", "|", "(", "B_FLAGS", "&", "3", ")"}}
@@ -397,7 +448,15 @@ func (g *Gen) CondTree(maxLeaves int) Cond {
 
 func (g *Gen) wrap(c Cond) Cond {
 	if !g.P.NoRedundantPar && g.R.IntN(8) == 0 {
-		return &Paren{X: c}
+		c = &Paren{X: c}
+	}
+	if !g.P.NoRedundantPar && g.R.IntN(10) == 0 {
+		// a negated group around anything: one leaf (the only way to negate a comparison), another
+		// negation, redundant parentheses
+		c = &Not{X: c}
+		if g.R.IntN(4) == 0 {
+			c = &Not{X: c}
+		}
 	}
 	return c
 }
@@ -502,7 +561,12 @@ func (g *Gen) stmt(contOK bool) (Stmt, bool) {
 	}
 	switch k {
 	case 0:
-		return &CmdStmt{Cmd: g.Cmd()}, false
+		c := g.Cmd()
+		if g.lastAuto != nil && g.chance(g.P.PRepeatAuto/3) {
+			// a command configured as AutoVar command, used as an ordinary statement
+			c.Name = g.lastAuto.Name
+		}
+		return &CmdStmt{Cmd: c}, false
 	case 1:
 		l := &Label{ID: g.Prog.NewID(), Name: g.Name("Lbl")}
 		if g.R.IntN(5) == 0 {
@@ -649,14 +713,7 @@ func (g *Gen) poryStmt(contOK bool) *PorySwitch {
 	key := g.P.PoryKeys[g.R.IntN(len(g.P.PoryKeys))]
 	s := &PorySwitch{ID: g.Prog.NewID(), Key: key}
 	g.depth++
-	names := []string{"RUBY", "SAPPHIRE", "EMERALD", "1", "2"}
-	g.R.Shuffle(len(names), func(i, j int) { names[i], names[j] = names[j], names[i] })
-	n := 1 + g.R.IntN(3)
-	cs := names[:n]
-	if g.chance(g.pFallback()) {
-		cs = append(append([]string{}, cs...), "_")
-		g.R.Shuffle(len(cs), func(i, j int) { cs[i], cs[j] = cs[j], cs[i] })
-	}
+	cs := g.psCaseNames()
 	for _, nm := range cs {
 		c := &PSCase{Name: nm, Brace: g.R.IntN(2) == 0}
 		if c.Brace {
@@ -771,10 +828,13 @@ func (g *Gen) TextStmt() *TextItem {
 }
 
 func (g *Gen) psCaseNames() []string {
-	names := []string{"RUBY", "SAPPHIRE", "EMERALD", "1", "2"}
+	names := []string{"RUBY", "SAPPHIRE", "EMERALD", "1", "2", "-1", "0x10"}
 	g.R.Shuffle(len(names), func(i, j int) { names[i], names[j] = names[j], names[i] })
 	cs := append([]string{}, names[:1+g.R.IntN(3)]...)
 	if g.chance(g.pFallback()) {
+		if g.R.IntN(8) == 0 {
+			cs = nil // `_` is the only case
+		}
 		cs = append(cs, "_")
 		g.R.Shuffle(len(cs), func(i, j int) { cs[i], cs[j] = cs[j], cs[i] })
 	}
@@ -794,8 +854,9 @@ func (g *Gen) ListWithPory(maxLen int, movement bool, depth int) []*ListElem {
 					c.Elems = g.ListWithPory(3, movement, depth+1)
 				} else {
 					// colon form holds exactly one element
+					// (the one element may itself be a poryswitch)
 					for len(c.Elems) != 1 {
-						c.Elems = g.ListWithPory(1, movement, 2)
+						c.Elems = g.ListWithPory(1, movement, depth+1)
 					}
 					c.Elems[0].Comma = false
 				}
@@ -913,7 +974,7 @@ func (g *Gen) FullProgram(nItems int) *Program {
 		}
 	}
 	for _, key := range g.P.PoryKeys {
-		g.Prog.Switches[key] = []string{"RUBY", "SAPPHIRE", "EMERALD", "1", "2", "OTHER"}[g.R.IntN(6)]
+		g.Prog.Switches[key] = []string{"RUBY", "SAPPHIRE", "EMERALD", "1", "2", "OTHER", "-1", "0x10"}[g.R.IntN(8)]
 	}
 	return g.Prog
 }
